@@ -166,3 +166,150 @@ theorem reparse_ident (F : Fold) (dns dns' : List (String × Option Nat)) (name 
         intro hh; exact hl (by rw [h1]; exact hh.1)
 
 end IronCalc.Book
+
+namespace IronCalc.Book
+open IronCalc.RefTree
+
+/-- **one stored formula through the code path** of `update_defined_name`: parsed against the old
+    name list, `rename_defined_name_in_node`, printed (`to_rc_format`), parsed again against the updated
+    name list — the result is `retargetNameInNode` of the old parse tree. -/
+theorem reparse_tree (F : Fold) (names : List String) (dns dns' : List (String × Option Nat))
+    (name : String) (scope : Option Nat) (new : String) (newScope : Option Nat)
+    (ctx : String) (c : Nat) (hc : sheetIndex names ctx = some c)
+    (hU : UpdatedDefs F dns dns' name scope new newScope)
+    (hfresh : ∀ d ∈ dns, F.low d.1 ≠ F.low new)
+    (hvis : newScope = some c ∨ newScope = none)
+    (f : SNode) (hn : ∀ vn ∈ Tree.idents f, F.low vn.2 ≠ F.low new) :
+    resolve F names dns' ctx
+        (strip (renameDefinedNameInNode F.low name scope new (resolve F names dns ctx f)))
+      = retargetNameInNode F.low name scope new newScope (resolve F names dns ctx f) := by
+  unfold resolve strip renameDefinedNameInNode retargetNameInNode
+  simp only [Tree.map_map]
+  apply Tree.map_congr
+  · intro kr _
+    cases kr.2 <;> rfl
+  · intro vn hvn
+    simp only [hc]
+    exact reparse_ident F dns dns' name scope new newScope c vn.2 hU hfresh (hn vn hvn) hvis _ rfl _ rfl
+
+end IronCalc.Book
+
+namespace IronCalc.Book
+open IronCalc.RefTree
+
+/-- the fold of `findNameIdx` answers an index whose entry matches (or the initial accumulator) -/
+theorem findFold_spec (p : DefName → Bool) :
+    ∀ (l : List DefName) (k : Nat) (acc : Option Nat) (i : Nat),
+      (l.zipIdx k).foldl (fun acc (x : DefName × Nat) => if p x.1 then some x.2 else acc) acc = some i →
+      acc = some i ∨ (k ≤ i ∧ ∃ d, l[i - k]? = some d ∧ p d = true) := by
+  intro l
+  induction l with
+  | nil => intro k acc i h; exact Or.inl (by simpa using h)
+  | cons x xs ih =>
+    intro k acc i h
+    simp only [List.zipIdx_cons, List.foldl_cons] at h
+    rcases ih (k + 1) _ i h with h1 | ⟨hk, d, hd, hp⟩
+    · by_cases hx : p x = true
+      · simp only [hx, if_true, Option.some.injEq] at h1
+        subst h1
+        exact Or.inr ⟨Nat.le_refl _, x, by simp, hx⟩
+      · simp only [hx, Bool.false_eq_true, if_false] at h1
+        exact Or.inl h1
+    · refine Or.inr ⟨by omega, d, ?_, hp⟩
+      have : i - k = (i - (k + 1)) + 1 := by omega
+      rw [this]; simpa using hd
+
+theorem findNameIdx_spec {F : Fold} {names : List DefName} {name : String} {sid : Option Nat} {i : Nat}
+    (h : findNameIdx F names name sid = some i) :
+    ∃ d, names[i]? = some d ∧ F.up d.name = F.up name ∧ d.scope = sid := by
+  unfold findNameIdx at h
+  rcases findFold_spec (fun d => F.up d.name == F.up name && d.scope == sid) names 0 none i h with h1 | ⟨_, d, hd, hp⟩
+  · cases h1
+  · simp only [Bool.and_eq_true, beq_iff_eq] at hp
+    exact ⟨d, by simpa using hd, hp.1, hp.2⟩
+
+theorem idIndex_of_get {l : List Sheet} (hI : (l.map (·.id)).Nodup) {k : Nat} {s : Sheet}
+    (h : l[k]? = some s) : idIndex l s.id = some k := by
+  induction l generalizing k with
+  | nil => simp at h
+  | cons a as ih =>
+    rw [List.map_cons, List.nodup_cons] at hI
+    unfold idIndex
+    cases k with
+    | zero => simp at h; subst h; simp
+    | succ k =>
+      simp at h
+      have hne : a.id ≠ s.id := by
+        intro e; apply hI.1; rw [e]
+        exact List.mem_map.mpr ⟨s, List.mem_of_getElem? h, rfl⟩
+      simp [hne, ih hI.2 h]
+
+/-- a scope given as an index, stored as an id, and reported again as an index is the same scope -/
+theorem scopeId_bind_idIndex {b : Book} (hI : b.UniqueIds) {scope sid : Option Nat}
+    (h : scopeId b scope = some sid) : sid.bind (idIndex b.sheets) = scope := by
+  unfold scopeId at h
+  cases scope with
+  | none => simp at h; subst h; rfl
+  | some k =>
+    simp only at h
+    cases hk : b.sheets[k]? with
+    | none => simp [hk] at h
+    | some s =>
+      simp [hk] at h; subst h
+      simp [idIndex_of_get hI hk]
+
+/-- replacing the one matching entry of a list gives `UpdatedDefs` -/
+theorem updatedDefs_set (F : Fold) (dns : List (String × Option Nat)) (name : String) (scope : Option Nat)
+    (new : String) (newScope : Option Nat) (i : Nat) (t : String × Option Nat)
+    (hi : dns[i]? = some t) (ht : F.low t.1 = F.low name ∧ t.2 = scope)
+    (huniq : ∀ (j : Nat) (t' : String × Option Nat), dns[j]? = some t' → F.low t'.1 = F.low name → t'.2 = scope → j = i) :
+    UpdatedDefs F dns (dns.set i (new, newScope)) name scope new newScope := by
+  have hlt : i < dns.length := (List.getElem?_eq_some_iff.mp hi).1
+  intro d'
+  constructor
+  · intro hd'
+    obtain ⟨j, hj⟩ := List.mem_iff_getElem?.mp hd'
+    rw [List.getElem?_set] at hj
+    by_cases hij : i = j
+    · simp [hij] at hj
+      exact Or.inl hj.2.symm
+    · simp only [hij, if_false] at hj
+      refine Or.inr ⟨List.mem_of_getElem? hj, ?_⟩
+      intro hh; exact hij (huniq j d' hj hh.1 hh.2).symm
+  · rintro (rfl | ⟨hd, hnt⟩)
+    · apply List.mem_iff_getElem?.mpr
+      exact ⟨i, by rw [List.getElem?_set]; simp [hlt]⟩
+    · obtain ⟨j, hj⟩ := List.mem_iff_getElem?.mp hd
+      have hji : ¬ i = j := by
+        intro e; subst e; rw [hi] at hj; cases hj; exact hnt ht
+      apply List.mem_iff_getElem?.mpr
+      exact ⟨j, by rw [List.getElem?_set]; simp [hji, hj]⟩
+
+theorem updateDefinedName_inv {F : Fold} {b b' : Book} {valid : Bool} {name : String} {scope : Option Nat}
+    {new : String} {newScope : Option Nat} {formula : SNode}
+    (h : updateDefinedName F b valid name scope new newScope formula = .ok b') :
+    ∃ sid newSid i d, scopeId b scope = some sid ∧ scopeId b newScope = some newSid ∧
+      findNameIdx F b.names name sid = some i ∧ b.names[i]? = some d ∧
+      b' = { sheets := if new != d.name then
+                b.sheets.map fun ws => { ws with formulas := ws.formulas.map (rewriteName F b name scope new ws.name) }
+              else b.sheets,
+             names := b.names.set i { name := new, scope := newSid, formula := formula } } := by
+  unfold updateDefinedName at h
+  split at h
+  · cases h
+  · split at h
+    · cases h
+    · split at h
+      · cases h
+      · cases h
+      · rename_i sid newSid hs1 hs2
+        split at h
+        · cases h
+        · rename_i i hi
+          split at h
+          · cases h
+          · rename_i d hd
+            cases h
+            exact ⟨sid, newSid, i, d, hs1, hs2, hi, hd, rfl⟩
+
+end IronCalc.Book
